@@ -27,3 +27,24 @@ func At(name string) {
 		(*h)(name)
 	}
 }
+
+type handlerNFn func(name string, n int)
+
+var handlerN atomic.Pointer[handlerNFn]
+
+// SetHandlerN installs (or, with nil, removes) the simulator's handler for AtN.
+func SetHandlerN(h func(name string, n int)) {
+	if h == nil {
+		handlerN.Store(nil)
+		return
+	}
+	fn := handlerNFn(h)
+	handlerN.Store(&fn)
+}
+
+// AtN is like At but carries an integer (e.g. the number of tasks about to be started).
+func AtN(name string, n int) {
+	if h := handlerN.Load(); h != nil {
+		(*h)(name, n)
+	}
+}
